@@ -37,6 +37,7 @@ func cmdVerify(args []string) {
 	timeout := fs.Int("timeout", 10000, "solver timeout ms")
 	all := fs.Bool("all", false, "print discharged obligations too")
 	nocontract := fs.Bool("sweep", false, "also translate functions without contract (safety obligations only)")
+	explain := fs.Bool("explain", false, "split failing obligations into conjuncts and report which ones fail")
 	_ = fs.Parse(args)
 	pats := fs.Args()
 	if len(pats) == 0 {
@@ -123,6 +124,9 @@ func cmdVerify(args []string) {
 					}
 					fmt.Printf("           model:%s\n", sb.String())
 				}
+				if *explain && o.Result != "unsat" {
+					explainObligation(r, o, solveOpts{timeoutMs: *timeout, dumpDir: *dump})
+				}
 				if o.Result != "unsat" && o.Result != "sat" {
 					fmt.Printf("           %s\n", strings.ReplaceAll(strings.TrimSpace(o.Output), "\n", "\n           "))
 				}
@@ -168,3 +172,23 @@ func verifyFn(P *Program, fn *ssa.Function, ct *Contract, opt solveOpts) *FnResu
 	return res
 }
 
+
+func explainObligation(r *FnResult, o *Obligation, opt solveOpts) {
+	tr := r.tr
+	parts := tr.f.splitConj(o.Cond)
+	if len(parts) <= 1 {
+		return
+	}
+	for i, p := range parts {
+		o2 := &Obligation{Name: fmt.Sprintf("%s.part%d", o.Name, i), Kind: o.Kind, Reach: o.Reach, Cond: p, NAssume: o.NAssume}
+		pr := tr.prepare1(o2, opt, nil)
+		discharge(o2, pr, opt)
+		if o2.Result != "unsat" {
+			s := tr.f.Show(p)
+			if len(s) > 700 {
+				s = s[:700] + "..."
+			}
+			fmt.Printf("           part %d/%d %s: %s\n", i+1, len(parts), o2.Result, s)
+		}
+	}
+}
